@@ -27,6 +27,8 @@ type Plan struct {
 
 	// Sequential: ops are started one after the other (op i+1 after op i returned).
 	Sequential bool `json:"sequential,omitempty"`
+	// Race enables the happens-before detector (worlds built with the yield pass).
+	Race bool `json:"race,omitempty"`
 }
 
 // HookPlan scripts the server's error hook.
